@@ -158,7 +158,8 @@ Definition jchanged (m0 : jmodel) (k : key) (a : act gval) : bool :=
   | Del, Some _ => true
   | Del, None => false
   end.
-Definition no_int (a : act gval) : bool := match a with Put (GInt _) => false | _ => true end.
+(* neither a Go int nor a value that cannot be marshalled *)
+Definition no_int (a : act gval) : bool := match a with Put (GInt _) => false | Put GBad => false | _ => true end.
 
 (* the data a delete listener receives: the stored entry as Value() would give it (unmarshalled
    into Type); it IS the stored entry when that is of the handler's Type *)
